@@ -371,6 +371,128 @@ def r3(ctx):
 
 
 # ------------------------------------------------------------------------------------------ R4
+def _adapt_to_context_on_models(ctx, cls, ad, md) -> Tuple[List[str], int]:
+    """Interpret `_adapt_to_context` (helpers of the class followed) on small models and compare the keymap handed to
+    `_make_new_metadata` with the specification: for every position i that has a record (MD_RESULT_MAP_INDEX == i) the
+    i-th selected column of the invoked statement maps to that record -- also when that very object is a key of the
+    cached keymap at another position --, every other key keeps its record.  -> (failures, number of executions)"""
+    from . import _helpers_str2_e as SE
+    need = ("MD_INDEX", "MD_RESULT_MAP_INDEX", "MD_OBJECTS", "MD_LOOKUP_KEY", "MD_RENDERED_NAME")
+    ctx.require(all(k in md for k in need), f"MD_* constants {sorted(md)} not understood")
+    width = max(md.values()) + 1
+
+    def record(pos, ridx, objs, name):
+        r = [None] * width
+        r[md["MD_INDEX"]], r[md["MD_RESULT_MAP_INDEX"]], r[md["MD_OBJECTS"]], r[md["MD_LOOKUP_KEY"]], r[md["MD_RENDERED_NAME"]] = pos, ridx, objs, name, name
+        return tuple(r)
+
+    class Interp(SE.Conc):
+        depth = 0
+
+        def call_method(self, obj, name, args, kwargs):
+            if obj is self.globals["__self__"]:
+                m = ctx.index.resolve_method(cls, name)
+                if m is not None and name == "_make_new_metadata":
+                    ctx.functions_analysed.add(m.key)
+                    env = _bind_call(m.node, args, kwargs)
+                    if env is None:
+                        raise SE.Unsupported(f"call of _make_new_metadata does not fit its signature ({sorted(kwargs)})")
+                    return SE.Obj("new metadata", **env)
+                if m is not None and self.depth < 3 and not any(isinstance(x, (ast.Yield, ast.YieldFrom)) for x in ast.walk(m.node)):
+                    env = _bind_call(m.node, args, kwargs)
+                    if env is not None:
+                        ctx.functions_analysed.add(m.key)
+                        env[m.params[0]] = obj
+                        self.depth += 1
+                        try:
+                            return self.call(m.node, env)
+                        finally:
+                            self.depth -= 1
+            raise SE.Unsupported(f"call of `{obj!r}.{name}()`")
+
+    def _bind_call(fnode, args, kwargs):
+        a = fnode.args
+        pos = [x.arg for x in a.posonlyargs + a.args][1:]
+        if len(args) > len(pos) or a.vararg or a.kwarg:
+            return None
+        env = dict(zip(pos, args))
+        names = pos + [x.arg for x in a.kwonlyargs]
+        for k, v in kwargs.items():
+            if k not in names or k in env:
+                return None
+            env[k] = v
+        return env if set(env) == set(names) else None
+
+    def run(cached_cols, extra_keys, invoked_cols, prebuilt, ridx_of=None):
+        """cached_cols: column objects of the cached statement by position; -> (old keymap, new keymap | failure text)"""
+        n = len(cached_cols)
+        ridx_of = ridx_of or (lambda i: i)
+        recs = [record(10 + i, ridx_of(i), (cached_cols[i],), f"c{i}") for i in range(n)]
+        keymap = {}
+        for i, c in enumerate(cached_cols):
+            keymap[c] = recs[i]
+            keymap[f"c{i}"] = recs[i]
+        for k, i in extra_keys:
+            keymap[k] = recs[i]
+        old = dict(keymap)
+        by_pos = {r[md["MD_RESULT_MAP_INDEX"]]: r for r in recs} if prebuilt else None
+        me = SE.Obj("self", _keymap=keymap, _keymap_by_result_column_idx=by_pos, _unpickled=False, _processors=[None] * n, _tuplefilter=None,
+                    _translated_indexes=None, _keys=[f"c{i}" for i in range(n)], _safe_for_cache=True)
+        cached_stmt = SE.Obj("cached statement", _all_selected_columns=list(cached_cols))
+        invoked_stmt = SE.Obj("invoked statement", _all_selected_columns=list(invoked_cols))
+        compiled = SE.Obj("compiled", statement=cached_stmt, _result_columns=[("c", "c", (), None)] * n)
+        context = SE.Obj("context", compiled=compiled, invoked_statement=invoked_stmt)
+        it = Interp({**md, "TYPE_CHECKING": False, "__self__": me})
+        env = {ad.params[0]: me, ad.params[1]: context}
+        try:
+            res = it.call(ad.node, env)
+        except SE.ModelRaise as e:
+            return old, recs, f"it raises ({e.what})"
+        if not isinstance(res, SE.Obj) or res.name != "new metadata" or not isinstance(res.attrs.get("keymap"), dict):
+            raise SE.Unsupported(f"_adapt_to_context returns {res!r}, not the result of _make_new_metadata(keymap=...)")
+        if res.attrs["keymap"] is keymap and keymap != old:
+            return old, recs, "it changes the keymap of the cached metadata in place"
+        return old, recs, res.attrs["keymap"]
+
+    def col(name):
+        return SE.Obj(name)
+
+    a, b, c, p = col("cached.a"), col("cached.b"), col("cached.c"), col("proxy of cached.a")
+    a2, b2, c2 = col("invoked.a"), col("invoked.b"), col("invoked.c")
+    scenarios = [
+        ("the invoked statement has its own column objects", [a, b], [(p, 0)], [a2, b2], None),
+        ("the invoked statement lists the cached statement's column objects in swapped positions (e.g. two anonymous aliases of one table)", [a, b], [(p, 0)], [b, a], None),
+        ("the invoked statement is built from the same column objects", [a, b, c], [], [a, b, c], None),
+        ("one object moved, one new", [a, b, c], [], [c2, a, b2], None),
+        ("a record without result-map position (column only known from cursor.description)", [a, b, c], [], [a2, b2, c2], lambda i: None if i == 1 else i),
+    ]
+    bad: List[str] = []
+    runs = 0
+    try:
+        for what, cached, extra, invoked, ridx_of in scenarios:
+            for prebuilt in (False, True):
+                runs += 1
+                old, recs, new = run(cached, extra, invoked, prebuilt, ridx_of)
+                where = f"when {what}" + (" (position map already cached)" if prebuilt else "")
+                if isinstance(new, str):
+                    bad.append(f"{where}: {new}")
+                    continue
+                by_ridx = {r[md["MD_RESULT_MAP_INDEX"]]: r for r in recs if r[md["MD_RESULT_MAP_INDEX"]] is not None}
+                expect = dict(old)
+                for i, colobj in enumerate(invoked):
+                    if i in by_ridx:
+                        expect[colobj] = by_ridx[i]
+                for k, r in expect.items():
+                    got = new.get(k)
+                    if got != r:
+                        bad.append(f"{where}: key {k!r} maps to {'no record' if got is None else 'the record of result column ' + str(got[md['MD_RESULT_MAP_INDEX']])}, "
+                                   f"expected the record of result column {r[md['MD_RESULT_MAP_INDEX']]}")
+                        break
+    except SE.Unsupported as e:
+        ctx.error(f"_adapt_to_context cannot be executed on the model: {e}")
+    return bad, runs
+
+
 @R.rule("C11-R4", floor=5, template="T-GUARD/T-FLOW",
         desc="unknown key: _index_for_key / _metadata_for_keys / _indexes_for_keys send a KeyError to _key_fallback, which "
              "raises NoSuchColumnError when raiseerr; _adapt_to_context keys the records by MD_RESULT_MAP_INDEX and matches "
@@ -415,19 +537,153 @@ def r4(ctx):
                                                                         "yields None / position None", "if raiseerr: raise NoSuchColumnError", kf.loc, None if w is None else g.describe_path(w))
     ad = cls.methods.get("_adapt_to_context")
     ctx.require(ad is not None, "_adapt_to_context not found")
-    bypos = [v for n, v, s in name_stores(ad.node) if isinstance(v, ast.DictComp)] + [s.value for s in walk_local(ad.node) if isinstance(s, ast.Assign) and isinstance(s.value, ast.DictComp)]
-    bypos = [d for d in bypos if isinstance(d.key, ast.Subscript) and _slot(d.key, md) == md["MD_RESULT_MAP_INDEX"] and dotted(d.value) == dotted(d.key.value)
-             and unparse(d.generators[0].iter) == "self._keymap.values()"]
-    merged = [d for d in ast.walk(ad.node) if isinstance(d, ast.DictComp) and isinstance(d.generators[0].iter, ast.Call) and callee_is(d.generators[0].iter, "enumerate")
-              and "_all_selected_columns" in unparse(d.generators[0].iter)]
-    good = bool(bypos) and len(merged) == 1
-    if good:
-        d = merged[0]
-        tgt = d.generators[0].target
-        good = isinstance(tgt, ast.Tuple) and len(tgt.elts) == 2 and dotted(d.key) == dotted(tgt.elts[1]) and isinstance(d.value, ast.Subscript) and dotted(d.value.slice) == dotted(tgt.elts[0])
-    ctx.check(good, f"{ad.key}:columns-matched-by-position", "_adapt_to_context does not give each column of the invoked statement the record at the same result-column position (records keyed by "
-                                                            "MD_RESULT_MAP_INDEX, columns by enumerate()): with a cached statement, rows looked up by the new statement's column objects return another column",
-              "{new: keymap_by_position[idx] for idx, new in enumerate(invoked._all_selected_columns)}", ad.loc)
+    # _adapt_to_context is judged by the keymap it computes on models of (cached keymap, columns of the invoked statement),
+    # not by the spelling of the merge: `a | {..}`, `{**a, **b}`, copy + update, a loop with item assignment are the same
+    # function; `setdefault` / a merge in the other direction (the cached entry wins) / another record slot are not.
+    bad, runs = _adapt_to_context_on_models(ctx, cls, ad, md)
+    ctx.check(not bad, f"{ad.key}:columns-matched-by-position",
+              "_adapt_to_context does not give each column of the invoked statement the record at the same result-column position (MD_RESULT_MAP_INDEX), overriding what the cached "
+              f"statement's keymap holds for that object: {bad[0] if bad else ''} -- with a cached statement, rows looked up by the new statement's column objects return another column",
+              f"adapted keymap[invoked column i] is the record with MD_RESULT_MAP_INDEX i, other keys unchanged, on {runs} model executions", ad.loc)
+
+
+# ------------------------------------------------------------------------------------------ R5
+def _generator_kind(ctx, m):
+    """How a `_merge_*` generator associates a cursor.description entry with the compiled result column it yields as
+    record members 1 (result-map index) and 5 (column objects): 'positional' (computed from the enumerate() position of
+    the description entry and from nothing else the description says), 'by-name' (computed from a name / type the cursor
+    reports at run time), 'unanchored' (no compiled column at all: the keys are only what the cursor reports)."""
+    from . import _helpers_rob_D2 as RD
+    loops = [n for n in walk_local(m.node) if isinstance(n, ast.For) and isinstance(n.iter, ast.Call) and callee_is(n.iter, "_colnames_from_description") and isinstance(n.target, ast.Tuple)]
+    if len(loops) != 1:
+        return None
+    lp = loops[0]
+    names = [dotted(t) for t in lp.target.elts]
+    if not names or any(n is None for n in names):
+        return None
+    pos, reported = names[0], set(names[1:])
+    ys = [y.value for y in walk_local(m.node) if isinstance(y, ast.Yield) and isinstance(y.value, ast.Tuple) and len(y.value.elts) == 7]
+    if not ys:
+        return None
+    kinds = set()
+    for y in ys:
+        deps = RD.dep_closure(m.node, lp, [y.elts[1], y.elts[5]], stop=set(names))
+        kinds.add("by-name" if deps & reported else ("positional" if pos in deps else "unanchored"))
+    return "by-name" if "by-name" in kinds else ("unanchored" if "unanchored" in kinds else "positional")
+
+
+@R.rule("C11-R5", floor=5, template="T-FLOW/T-GUARD",
+        desc="metadata is reused for later executions of the same compiled statement (_safe_for_cache) only when its records "
+             "were matched to the compiled columns by position: on every path of _merge_cursor_description through a generator "
+             "that matches by the names cursor.description reports (or has no compiled columns) the flag last stored is False; "
+             "the flag is never true with driver_column_names; _init_metadata stores compiled._cached_metadata only under it")
+def r5(ctx):
+    from . import _helpers_str2_e as SE
+    from ._helpers_rob_D2 import single_defs, resolve
+    cls = ctx.index.cls(CRM)
+    f = cls.methods.get("_merge_cursor_description")
+    ctx.require(f is not None, f"{CRM}._merge_cursor_description not found")
+    g = ctx.cfg(f)
+    defs = single_defs(f.node)
+    FLAG = "_safe_for_cache"
+    # the definitions of the flag: `self._safe_for_cache = V`; when V is a local that is assigned in several places, those assignments
+    stores: Dict[int, ast.expr] = {}
+    for n in g.nodes:
+        st = n.stmt
+        if n.kind != "stmt" or not isinstance(st, (ast.Assign, ast.AnnAssign)) or st.value is None:
+            continue
+        tg = st.targets if isinstance(st, ast.Assign) else [st.target]
+        if any(isinstance(t, ast.Attribute) and t.attr == FLAG and dotted(t.value) == f.params[0] for t in tg):
+            stores[n.id] = st.value
+    ctx.require(stores, f"no store of self.{FLAG} in _merge_cursor_description")
+    via = {v.id for v in stores.values() if isinstance(v, ast.Name) and v.id not in f.params and v.id not in defs}
+    if via:
+        stores = {k: v for k, v in stores.items() if not (isinstance(v, ast.Name) and v.id in via)}
+        for n in g.nodes:
+            st = n.stmt
+            if n.kind == "stmt" and isinstance(st, (ast.Assign, ast.AnnAssign)) and st.value is not None:
+                tg = st.targets if isinstance(st, ast.Assign) else [st.target]
+                if any(isinstance(t, ast.Name) and t.id in via for t in tg):
+                    stores[n.id] = st.value
+
+    def value_of(nid):
+        return resolve(stores[nid], defs, pure_only=False)
+
+    def truths(nid, fixed=None):
+        try:
+            return SE.possible_truth(value_of(nid), fixed)
+        except SE.Unsupported as e:
+            ctx.error(f"value stored in {FLAG} not understood: {e}")
+
+    # (a) per generator
+    sites = []
+    for n in g.nodes:
+        if n.stmt is None or n.kind not in ("stmt", "test", "for"):
+            continue
+        from ..astutil import own_exprs
+        for part in own_exprs(n.stmt):
+            for c in calls_in(part):
+                if isinstance(c.func, ast.Attribute) and dotted(c.func.value) == f.params[0]:
+                    m = ctx.index.resolve_method(cls, c.func.attr)
+                    if m is not None and any(isinstance(x, ast.Call) and callee_is(x, "_colnames_from_description") for x in ast.walk(m.node)) and m.name != "_colnames_from_description":
+                        sites.append((n.id, m, c))
+    ctx.require(len(sites) >= 2, f"calls of the _merge_* generators not found in _merge_cursor_description ({[m.name for _, m, _c in sites]})")
+    n_pos = 0
+    for nid, m, c in sites:
+        ctx.functions_analysed.add(m.key)
+        kind = _generator_kind(ctx, m)
+        ctx.require(kind is not None, f"{m.name}: loop over _colnames_from_description / 7-tuple yield not understood")
+        key = f"{f.key}:cache-safe-only-if-matched-by-position[{m.name}]"
+        last, none = SE.last_stores_through(g, nid, stores, edge_ok=no_exc)
+        if kind == "positional":
+            n_pos += 1
+            ctx.ok(key, f"{m.name} matches by position; flag: {sorted({unparse(value_of(s))[:40] for s in last})}")
+            continue
+        maybe_true = [s for s in last if True in truths(s)]
+        why = "matches compiled columns by the names cursor.description reports at run time" if kind == "by-name" else "has no compiled columns: every key is a name reported at run time"
+        ctx.check(not maybe_true, key,
+                  f"{m.name} {why}, yet on the path through it self.{FLAG} is last stored as `{unparse(value_of(maybe_true[0]))[:60] if maybe_true else ''}`, which can be true: "
+                  "the key -> position map of the first execution is then reused for later executions of the cached statement, and when the database reports the columns in "
+                  "another order (select *, schema_translate_map, rebuilt table) keys return another column's value",
+                  f"{m.name} ({kind}): flag is False" + (" (or not stored: default)" if none else ""), f"{f.module.path}:{c.lineno}",
+                  [g.node(s).describe() for s in maybe_true[:1]])
+    ctx.require(n_pos >= 1, "no positional generator found (classification not understood)")
+    # (b) never true with driver_column_names
+    dcn = [p for p in f.params if p == "driver_column_names"]
+    ctx.require(dcn, "_merge_cursor_description has no driver_column_names parameter")
+    bad = []
+    for s in stores:
+        atoms = resolved_guard_atoms(g, s, f.node)
+        if (dcn[0], False) in atoms:
+            continue
+        if True in truths(s, {dcn[0]: True}):
+            bad.append(g.node(s).describe())
+    ctx.check(not bad, f"{f.key}:never-cache-safe-with-driver-column-names",
+              f"self.{FLAG} can be true although driver_column_names is set ({bad[:2]}): metadata keyed by the driver's names would be reused by executions without the option",
+              f"{len(stores)} store(s), none true with driver_column_names", f.loc)
+    # (c) consumer
+    cur = ctx.index.module(CUR)
+    n_cons = 0
+    for fn in ctx.index.all_functions(cur):
+        if "_cached_metadata" not in cur.source:
+            break
+        sts = [s for s in walk_local(fn.node) if isinstance(s, (ast.Assign, ast.AnnAssign)) and s.value is not None
+               and any(isinstance(t, ast.Attribute) and t.attr == "_cached_metadata" for t in (s.targets if isinstance(s, ast.Assign) else [s.target]))]
+        if not sts:
+            continue
+        ctx.functions_analysed.add(fn.key)
+        gf = ctx.cfg(fn)
+        fdefs = single_defs(fn.node)
+        for s in sts:
+            n_cons += 1
+            val = dotted(resolve(s.value, fdefs)) or unparse(s.value)
+            atoms = set()
+            for nid in gf.nodes_for(s):
+                atoms |= resolved_guard_atoms(gf, nid, fn.node)
+            good = any(p and a.endswith("." + FLAG) and a.rsplit(".", 1)[0] in (val, dotted(s.value)) for a, p in atoms)
+            ctx.check(good, f"{fn.key}:cached-only-if-safe", f"`{unparse(s)[:60]}` is not control-dependent on `{val}.{FLAG}`: metadata whose key -> position map depends on what the "
+                                                            "cursor reported is reused for later executions", f"if {val}.{FLAG}: compiled._cached_metadata = {val}", f"{fn.module.path}:{s.lineno}")
+    ctx.require(n_cons >= 1, "no store of <compiled>._cached_metadata found in engine/cursor.py")
 
 
 # ------------------------------------------------------------------------------------------ self-test battery
